@@ -43,9 +43,14 @@ def sh(cmd, timeout=600, cwd=None, env=None, inp=None):
 
 
 class BuildLock:
+    """Exclusive for builds (make rewrites .vo files), shared for readers (coqc on case files loads them)."""
+
+    def __init__(self, shared=False):
+        self.shared = shared
+
     def __enter__(self):
-        self.f = open(os.path.join(VERIF, '.build.lock'), 'w')
-        fcntl.flock(self.f, fcntl.LOCK_EX)
+        self.f = open(os.path.join(VERIF, '.build.lock'), 'a')
+        fcntl.flock(self.f, fcntl.LOCK_SH if self.shared else fcntl.LOCK_EX)
         return self
 
     def __exit__(self, *a):
@@ -122,6 +127,7 @@ def coqc_text(name, text, timeout=600):
     with open(path, 'w', encoding='utf-8') as f:
         f.write(text)
     try:
+      with BuildLock(shared=True):
         rc, out = sh(['bash', '-c', 'ulimit -s unlimited 2>/dev/null || ulimit -s 1000000; exec timeout %d coqc -noglob "$@"' % timeout, 'coqc'] + COQ_ARGS + ['cases/' + name + '.v'], cwd=COQ, timeout=timeout + 30)
     finally:
         if os.environ.get('VERIF_KEEP'):
